@@ -139,6 +139,14 @@ META = {
         "note": "Equality is Semantic.DeepEqual on the decoded template; the engineered collision uses the controller's own naming via a cloned dry run.",
         "technique": "property-based testing (rapid, reflection generator) with round-trip and metamorphic (non-template edit) oracles",
     },
+    "C17": {
+        "text": "Fault enumeration over the real helper.Upgrade on the recording API: every call position (all of them in the thorough tier) x seven fault kinds "
+                "incl. crashes and real concurrent modifications, with 1-3 faulted attempts of a retrying caller; safety is judged at the instant of the "
+                "delete call and the outcome against an uninterrupted twin.",
+        "design_ref": "DESIGN.md section 3, C17",
+        "note": "Garbage collection and the still-running built-in controller are not simulated beyond the injected conflicts.",
+        "technique": "fault injection enumerated over API-call positions of generated worlds (rapid), differential against an uninterrupted twin",
+    },
 }
 
 _pending = "check not built yet in this round of the build; planned per DESIGN.md section 3 (generated-input search applies)"
